@@ -25,6 +25,7 @@ import (
 	"golang.org/x/telemetry/internal/telemetry"
 	"golang.org/x/telemetry/internal/upload"
 	"golang.org/x/telemetry/internal/verifh/shim/vhttp"
+	"golang.org/x/telemetry/internal/verifh/shim/vos"
 	"golang.org/x/telemetry/internal/verifh/shim/vsched"
 	. "golang.org/x/telemetry/internal/verifh/vhlib"
 )
@@ -311,7 +312,8 @@ type scen struct {
 	outcomes string // all200 | mixed
 	kills    bool
 	eventual bool
-	directed string // "" | race3 | emptybody: a scripted interleaving over a forced file set
+	directed string // "" | race3 | emptybody | lateunlock: a scripted interleaving over a forced file set
+	pending2 bool   // the forced file set has 2-3 weeks (two or more reports to upload)
 	// deterministic sweeps of the thorough tier
 	small       bool  // the forced small file set (one week, two program builds)
 	sweepKill   int   // kill thread 0 after this many calls (0 = no)
@@ -369,6 +371,10 @@ func pickScen1() scen {
 	}
 	if tag == "c07" && rnd.Chance(4) {
 		return scen{kind: "race3", nthreads: 3, policy: "directed", outcomes: "all200", directed: "race3"}
+	}
+	if tag == "c08" && rnd.Chance(7) {
+		// three runs, two or more weeks to upload: the END of one run against another run's request in flight
+		return scen{kind: "lateunlock", nthreads: 3, policy: "directed", outcomes: "firstfail", directed: "lateunlock", pending2: true}
 	}
 	if tag == "c08" && rnd.Chance(4) {
 		return scen{kind: "emptybody", nthreads: 2, policy: "directed", outcomes: Pick(rnd, []string{"all200", "mixed"}), directed: "emptybody"}
@@ -517,6 +523,9 @@ func scenario() {
 	if forced {
 		nWeeks, nProgs = 1, 2
 	}
+	if sc.pending2 {
+		nWeeks = 2 + rnd.Intn(2)
+	}
 	forcedNow := base.Add(time.Duration(rnd.Intn(7))*day + 10*time.Hour)
 	pstart := rnd.Intn(len(progs))
 	used := map[string]bool{}
@@ -535,7 +544,7 @@ func scenario() {
 			for k := 0; k < ndays; k++ {
 				now := base.Add(time.Duration(wk*7+rnd.Intn(7))*day + time.Duration(rnd.Intn(86400))*time.Second)
 				if forced {
-					now = forcedNow
+					now = forcedNow.Add(time.Duration(wk*7) * day)
 				}
 				key := p.path + p.ver + now.Format("2006-01-02")
 				if used[key] {
@@ -698,7 +707,9 @@ func scenario() {
 		os.WriteFile(filepath.Join(d, name), data, 0666)
 		w.blob(data)
 	}
-	rawBody := func(s string) []byte { return []byte(fmt.Sprintf("{\"Week\":\"%s\",\"note\":\"pre-existing %d\"}", s, rnd.Intn(1000000))) }
+	rawBody := func(s string) []byte {
+		return []byte(fmt.Sprintf("{\"Week\":\"%s\",\"note\":\"pre-existing %d\"}", s, rnd.Intn(1000000)))
+	}
 	upPresent := rnd.Chance(60) || forced
 	if upPresent {
 		os.MkdirAll(w.up, 0777)
@@ -947,15 +958,17 @@ func scenario() {
 	defer vsched.Stop()
 	var nextStatus int
 	vhttp.Reset(func(u string, body []byte) int { return nextStatus })
+	vos.ResetTemp()
 	tids := make([]int, nth)
 	for i := 0; i < nth; i++ {
 		u := upload.VerifNewUploader(dir, url, starts[i], cfg, "v9.9.9", nil)
-		tids[i] = s.Go(func() { u.Run() })
+		tids[i] = s.Go(func() { u.RunAndClose() })
 	}
-	phase := make([]int, nth)     // tracked phase per thread
+	phase := make([]int, nth)      // tracked phase per thread
 	curWeek := make([]string, nth) // tracked week per thread (reports phase)
 	curFile := make([]string, nth) // ready file being uploaded
 	calls := make([]int, nth)
+	postsBy := make([]int, nth)
 	killed := make([]bool, nth)
 	killAt := make([]int, nth)
 	for i := range killAt {
@@ -996,7 +1009,20 @@ func scenario() {
 		}
 	}
 	alive := func(i int) bool { return !s.Done(tids[i]) && !killed[i] }
-	stepThread := func(i int) {
+	var stepThread func(i int)
+	stepThread = func(i int) {
+		if s.Last(tids[i]).Blocked {
+			// parked before a mutex another thread held: re-test; no os call is made, nothing to emit
+			if info := s.Step(tids[i]); info.Blocked {
+				for j := range tids {
+					if j != i && alive(j) && !s.Last(tids[j]).Blocked {
+						stepThread(j) // let a thread that can move (the holder is one) go on
+						return
+					}
+				}
+			}
+			return
+		}
 		prelude(i)
 		info0 := s.Last(tids[i])
 		ci := w.classify(info0.Label)
@@ -1009,6 +1035,12 @@ func scenario() {
 			switch sc.outcomes {
 			case "all200":
 				nextStatus = 200
+			case "firstfail":
+				// the first request of the scenario fails (server error or no answer), all later ones succeed
+				nextStatus = 200
+				if len(vhttp.Log) == 0 {
+					nextStatus = Pick(rnd, []int{500, 503, 0})
+				}
 			default:
 				nextStatus = Pick(rnd, []int{200, 200, 200, 200, 400, 404, 410, 500, 503, 301, 0, 0})
 			}
@@ -1027,6 +1059,9 @@ func scenario() {
 			out.Note("observation-empty-body-posted")
 		}
 		calls[i]++
+		if ci.op == "Post" {
+			postsBy[i]++
+		}
 		if len(vhttp.Log) > nlog {
 			r := vhttp.Log[len(vhttp.Log)-1]
 			wk := strings.TrimPrefix(r.URL, url+"/")
@@ -1139,6 +1174,16 @@ func scenario() {
 			{1, func(ci callInfo, n int) bool { return ci.op == "ReadFile" && ci.phase == 2 }},
 			{2, func(ci callInfo, n int) bool { return ci.op == "Stat" }},
 			{1, never}, {2, never}, {0, never},
+		})
+		sc.policy = "seq"
+	case "lateunlock":
+		// A=0 gets no 200 for its first report (lock released), and is parked before the request for its
+		// second; B=1 locks the first report's week and is parked before its request; A runs to its END;
+		// C=2 runs completely; then B's request goes out.
+		runDirected([]dstep{
+			{0, func(ci callInfo, n int) bool { return ci.op == "Post" && postsBy[0] >= 1 }},
+			{1, func(ci callInfo, n int) bool { return ci.op == "Post" }},
+			{0, never}, {2, never}, {1, never},
 		})
 		sc.policy = "seq"
 	case "emptybody":
